@@ -72,6 +72,7 @@ theorem idverify_exact (L : Laws C) (oid idH Hb idSig idPub pub : Bytes) (hH : H
           dsimp only
           rw [if_pos hh]
 
+omit [AddCommGroup G] in
 /-- the error codes of bignIdVerify and their order: oid, then id_pubkey, then pubkey; after
 that only ERR_OK / ERR_BAD_SIG -/
 theorem idverify_codes (oid idH Hb idSig idPub pub : Bytes) :
@@ -113,17 +114,17 @@ theorem idverify_codes (oid idH Hb idSig idPub pub : Bytes) :
             · exact Or.inl rfl
             · exact Or.inr rfl
 
-/-- completeness of the chain extract -> sign -> verify: if `R = e G + (t + 2^l) Q` with
+/-- completeness of sign -> verify for an extracted key pair: if `R = e G + (t + 2^l) Q` with
 `t = <belt-hash(oid ‖ <R>_{2l} ‖ H0)>_l` (what bignIdExtract returns as id_privkey = e and
 id_pubkey = <R>_{4l}), then a signature made by bignIdSign with any nonce `0 < k < q` is accepted
-by bignIdVerify under id_pubkey = <R>_{4l} and the trusted party's public key <Q>_{4l} -/
-theorem idsign_idverify (L : Laws C) (oid idH Hb : Bytes) (e k xR yR xQ yQ : Nat) (R Q : G)
+by bignIdVerify under id_pubkey = <R>_{4l} and any encoding `pub` of the trusted party's key Q -/
+theorem idsign_idverify_pub (L : Laws C) (oid idH Hb pub : Bytes) (e k xR yR : Nat) (R Q : G)
     (hoid : C.oidOk oid = true) (hH : Hb.length = C.no)
     (hk0 : 0 < k) (hk : k < C.q)
-    (hR : C.xy R = some (xR, yR)) (hQ : C.xy Q = some (xQ, yQ))
+    (hR : C.xy R = some (xR, yR)) (hQ : loadPub C pub = some Q)
     (hrel : e • C.base + (leNat (hashL C (oid ++ natLE C.no xR ++ idH)) + 2 ^ C.l) • Q = R) :
     ∃ isig, idSignWith C oid idH Hb e k = (.ok, isig) ∧ isig.length = C.no + C.no / 2 ∧
-      idVerify C oid idH Hb isig (encXY C (xR, yR)) (encXY C (xQ, yQ)) = .ok := by
+      idVerify C oid idH Hb isig (encXY C (xR, yR)) pub = .ok := by
   subst hrel
   obtain ⟨xV, yV, hV⟩ := L.xy_some (L.base_mul_ne hk0 hk)
   have hl := L.hashL_len (oid ++ natLE C.no xV ++ idH ++ Hb)
@@ -134,11 +135,21 @@ theorem idsign_idverify (L : Laws C) (oid idH Hb : Bytes) (e k xR yR xQ yQ : Nat
   · rw [List.length_append, hl, natLE_length]
     omega
   · refine (idverify_exact L oid idH Hb _ _ _ hH).2
-      ⟨hoid, _, Q, L.loadPub_encXY hR, L.loadPub_encXY hQ, ?_, xV, yV, ?_, ?_⟩
+      ⟨hoid, _, Q, L.loadPub_encXY hR, hQ, ?_, xV, yV, ?_, ?_⟩
     · rw [hd]; exact hs1
     · rw [hd, List.take_left' hl, ht, ibs_point L]
       exact hV
     · rw [List.take_left' hl]
+
+/-- the same with the trusted party's public key in its standard encoding `<Q>_{4l}` -/
+theorem idsign_idverify (L : Laws C) (oid idH Hb : Bytes) (e k xR yR xQ yQ : Nat) (R Q : G)
+    (hoid : C.oidOk oid = true) (hH : Hb.length = C.no)
+    (hk0 : 0 < k) (hk : k < C.q)
+    (hR : C.xy R = some (xR, yR)) (hQ : C.xy Q = some (xQ, yQ))
+    (hrel : e • C.base + (leNat (hashL C (oid ++ natLE C.no xR ++ idH)) + 2 ^ C.l) • Q = R) :
+    ∃ isig, idSignWith C oid idH Hb e k = (.ok, isig) ∧ isig.length = C.no + C.no / 2 ∧
+      idVerify C oid idH Hb isig (encXY C (xR, yR)) (encXY C (xQ, yQ)) = .ok :=
+  idsign_idverify_pub L oid idH Hb _ e k xR yR R Q hoid hH hk0 hk hR (L.loadPub_encXY hQ) hrel
 
 /-- bignIdExtract succeeds exactly on the signatures of the identity hash that alg. 7.1.4 accepts
 under Q, and returns `e = (s1 + H0) mod q` and both coordinates of
@@ -188,5 +199,79 @@ theorem idextract_exact (L : Laws C) (oid idH sig pub out : Bytes) (hH : idH.len
         · rintro ⟨_, Q', hQ', hs, x, y, hx, hh, _⟩
           cases hQ'
           exact absurd ⟨hs, x, y, hx, hh⟩ hn
+
+/-- the whole chain on the code's own outputs: whatever bignIdExtract returns (id_privkey ‖
+id_pubkey) for a signature of the identity hash under `pub`, a signature made with id_privkey
+and any nonce `0 < k < q` is accepted by bignIdVerify under id_pubkey and `pub` -/
+theorem idextract_idsign_idverify (L : Laws C) (oid idH Hb sig pub out : Bytes) (k : Nat)
+    (hH0 : idH.length = C.no) (hH : Hb.length = C.no) (hk0 : 0 < k) (hk : k < C.q)
+    (hex : idExtract C oid idH sig pub = (.ok, out)) :
+    leNat (out.take C.no) < C.q ∧ out.length = 3 * C.no ∧
+    ∃ isig, idSignWith C oid idH Hb (leNat (out.take C.no)) k = (.ok, isig) ∧
+      isig.length = C.no + C.no / 2 ∧
+      idVerify C oid idH Hb isig (out.drop C.no) pub = .ok := by
+  obtain ⟨hoid, Q, hQ, _, x, y, hx, hh, rfl⟩ := (idextract_exact L oid idH sig pub out hH0).1 hex
+  have hq : (leNat (sig.drop (C.no / 2)) + leNat idH) % C.q < C.q := Nat.mod_lt _ L.q_pos
+  have he : leNat (natLE C.no ((leNat (sig.drop (C.no / 2)) + leNat idH) % C.q))
+      = (leNat (sig.drop (C.no / 2)) + leNat idH) % C.q := by
+    apply leNat_natLE_of_lt
+    rw [L.pow256]
+    exact Nat.lt_trans hq L.q_hi
+  rw [take_natLE_append, drop_natLE_append, he]
+  refine ⟨hq, ?_, ?_⟩
+  · rw [List.length_append, natLE_length, encXY_length]
+    omega
+  · refine idsign_idverify_pub L oid idH Hb pub _ k x y _ Q hoid hH hk0 hk hx hQ ?_
+    rw [hh]
+
+/-- bignIdSign for a private key `e < q`: ERR_BAD_RNG iff the generator gives no nonce within the
+attempts of zzRandNZMod; otherwise the nonce is in [1, q-1] and the result is ERR_OK with the
+signature of `idSignWith` for this nonce -/
+theorem idsign_complete (L : Laws C) (oid idH Hb idPriv tape : Bytes)
+    (hoid : C.oidOk oid = true) (he : leNat idPriv < C.q) (hH : Hb.length = C.no) :
+    (∀ rest, randNZMod C tape = (none, rest) →
+      idSign C oid idH Hb idPriv tape = (.badRng, [], rest)) ∧
+    (∀ k rest, randNZMod C tape = (some k, rest) → 0 < k ∧ k < C.q ∧
+      ∃ isig, idSignWith C oid idH Hb (leNat idPriv) k = (.ok, isig) ∧
+        idSign C oid idH Hb idPriv tape = (.ok, isig, rest)) := by
+  have he' : ¬ leNat idPriv ≥ C.q := by omega
+  constructor
+  · intro rest h
+    unfold idSign
+    simp only [hoid, Bool.not_true, Bool.false_eq_true, ↓reduceIte, he', h]
+  · intro k rest h
+    obtain ⟨hk0, hk⟩ := ibs_randLoop_range _ _ _ _ _ _ h
+    obtain ⟨xV, yV, hV⟩ := L.xy_some (L.base_mul_ne hk0 hk)
+    refine ⟨hk0, hk, _, ibs_idSignWith_eq L oid idH _ hH hk hV, ?_⟩
+    unfold idSign
+    simp only [hoid, Bool.not_true, Bool.false_eq_true, ↓reduceIte, he', h,
+      ibs_idSignWith_eq L oid idH _ hH hk hV]
+
+/-- bignIdSign2 for a private key `e < q`: if the deterministic nonce loop ends within `fuel`
+rounds, its nonce is in [1, q-1] and the result is ERR_OK with the signature of `idSignWith` -/
+theorem idsign2_complete (L : Laws C) (fuel : Nat) (oid idH Hb idPriv : Bytes) (t : Option Bytes)
+    (hoid : C.oidOk oid = true) (he : leNat idPriv < C.q) (hH : Hb.length = C.no) :
+    (nonceLoop C (C.hash (oid ++ idPriv ++ t.getD [])) fuel Hb = none →
+      idSign2 C fuel oid idH Hb idPriv t = none) ∧
+    (∀ k, nonceLoop C (C.hash (oid ++ idPriv ++ t.getD [])) fuel Hb = some k → 0 < k ∧ k < C.q ∧
+      ∃ isig, idSignWith C oid idH Hb (leNat idPriv) k = (.ok, isig) ∧
+        idSign2 C fuel oid idH Hb idPriv t = some (.ok, isig)) := by
+  have he' : ¬ leNat idPriv ≥ C.q := by omega
+  have h2 : idSign2 C fuel oid idH Hb idPriv t =
+      match nonceLoop C (C.hash (oid ++ idPriv ++ t.getD [])) fuel Hb with
+      | none => none
+      | some k => some (idSignWith C oid idH Hb (leNat idPriv) k) := by
+    unfold idSign2
+    simp only [hoid, Bool.not_true, Bool.false_eq_true, ↓reduceIte, he']
+    cases t <;> rfl
+  rw [h2]
+  constructor
+  · intro h
+    simp only [h]
+  · intro k h
+    obtain ⟨hk0, hk⟩ := ibs_nonceLoop_range _ _ _ _ _ h
+    obtain ⟨xV, yV, hV⟩ := L.xy_some (L.base_mul_ne hk0 hk)
+    refine ⟨hk0, hk, _, ibs_idSignWith_eq L oid idH _ hH hk hV, ?_⟩
+    simp only [h, ibs_idSignWith_eq L oid idH _ hH hk hV]
 
 end Bee2V.C02
